@@ -353,6 +353,42 @@ func checkSequentialApply(w *World, r *Report, fi *FuncInfo, rule, ruleAlias str
 		}
 		return true
 	})
+	// the traversal happens on every invocation: nothing returns ahead of the loop
+	// (a module that is applied "at most once", or only when some state says so, is
+	// not equivalent to the Add calls it stands for)
+	{
+		bad := ""
+		var stack []ast.Node
+		ast.Inspect(body, func(x ast.Node) bool {
+			if x == nil {
+				stack = stack[:len(stack)-1]
+				return true
+			}
+			stack = append(stack, x)
+			if lit, isLit := x.(*ast.FuncLit); isLit && lit.Body != body {
+				return true
+			}
+			ret, ok := x.(*ast.ReturnStmt)
+			if !ok || ret.Pos() > il.Stmt.Pos() {
+				return true
+			}
+			okRet := false
+			for i := len(stack) - 2; i >= 0; i-- {
+				if ifs, isIf := stack[i].(*ast.IfStmt); isIf && ifs.Init == nil {
+					if be, isBe := unparen(ifs.Cond).(*ast.BinaryExpr); isBe && be.Op == token.EQL {
+						if c, isC := unparen(be.X).(*ast.CallExpr); isC && exprStr(c.Fun) == "len" && len(c.Args) == 1 && objOf(info, c.Args[0]) == listObj {
+							okRet = true
+						}
+					}
+				}
+			}
+			if !okRet && bad == "" {
+				bad = "the function can return at " + w.Pos(ret.Pos()) + " before the traversal: on that path none of the builders is applied"
+			}
+			return true
+		})
+		r.Check(bad == "", rule, con+":always", il.Stmt.Pos(), true, "every invocation reaches the traversal (no exit ahead of the loop)", bad)
+	}
 	fl := NewFlow(w, fi.Pkg, body, fi.Name())
 	var applyNode ast.Node
 	var errObj types.Object
